@@ -34,6 +34,18 @@ def forEach {R S A : Type} (body : S → A → Flow R S) : List A → S → Flow
     | .ret r => .ret r
     | .next s' => forEach body as s'
 
+/-- Python `v[a:b]` for non-negative bounds (clips at the end of the vector) -/
+def pySlice {β : Type} (v : List β) (a b : Nat) : List β := (v.take b).drop a
+
+/-- `a * g` where `a` may be NaN (`none`) -/
+def optMul {α : Type} [Mul α] (a : Option α) (g : α) : Option α := a.map (· * g)
+
+/-- Python `sum([...])` of floats that may be NaN: left to right, starting from `0` -/
+def optSum {α : Type} [Add α] [Zero α] (l : List (Option α)) : Option α :=
+  l.foldl (fun acc t => match acc, t with
+    | some a, some b => some (a + b)
+    | _, _ => none) (some 0)
+
 /-- the externals of `BaseART.step_fit`: the abstract kernel methods a subclass supplies, and the two
 methods of BaseART that are translated on their own (`_match_tracking`, `_match_tracking_operator`).
 `C` is the type of the `cache` dictionaries, `P` of the `params` dictionary. -/
